@@ -111,6 +111,17 @@ func runSimProp(t *testing.T, p *simProp) {
 		if p.MaxPlain == 0 {
 			p.MaxPlain = 6
 		}
+		thorough := core.Tier() == "thorough"
+		if thorough {
+			// deeper tier: larger universes (the driver also doubles the average history length)
+			p.MaxPlain += 3
+			if p.MaxPlain > len(core.PlainPool) {
+				p.MaxPlain = len(core.PlainPool)
+			}
+			if p.MaxRel > 0 && p.MaxRel < len(core.RelPool) {
+				p.MaxRel++
+			}
+		}
 		if p.Once != nil && core.EnvInt("VERIF_SHARD", 0) == 0 {
 			p.Once(t, st)
 		}
@@ -128,7 +139,11 @@ func runSimProp(t *testing.T, p *simProp) {
 			if g.Lim.MaxAlive == 0 {
 				g.Lim = core.DefaultLimits
 				// one case in twelve is "wide": room for a fanout of > 32 targets in one relation node
-				if len(u.Rel) > 0 && rapid.IntRange(0, 11).Draw(rt, "wide") == 0 {
+				wideOdds := 11
+				if thorough {
+					wideOdds = 3
+				}
+				if len(u.Rel) > 0 && rapid.IntRange(0, wideOdds).Draw(rt, "wide") == 0 {
 					g.Wide = true
 					g.Lim.MaxAlive, g.Lim.MaxTotal = 140, 400
 					cs.Label("wide case")
